@@ -374,12 +374,13 @@ impl ObjectStream {
         if index >= self.offsets.len() {
             err!(PdfError::ObjStmOutOfBounds {index, max: self.offsets.len()});
         }
-        let start = self.inner.info.first + self.offsets[index];
+        let first = self.inner.info.first;
+        let start = first.checked_add(self.offsets[index]).ok_or(PdfError::Invalid)?;
         let data = self.inner.data(resolve)?;
         let end = if index == self.offsets.len() - 1 {
             data.len()
         } else {
-            self.inner.info.first + self.offsets[index + 1]
+            first.checked_add(self.offsets[index + 1]).ok_or(PdfError::Invalid)?
         };
 
         Ok((data, start..end))
